@@ -246,3 +246,30 @@ CLAIMS["C13"] = {
     "technique": "static analysis: effect summaries over the call graph (fixpoint), intraprocedural alias classes "
                  "(param-derived / fresh / from-circuit), save/restore flow pairing, direction calculus",
 }
+
+CLAIMS["C05"] = {
+    "text": "Narrow claim: decides only structural necessary conditions of exact comparison — tableau equality reads table and "
+            "sign vectors; Stabilizer equality compares canonical forms of both sides; to_stabilizer carries the stabilizer "
+            "half of the signs; all generator row operations carry the sign vector (own.rowops); inner_product's orthogonality "
+            "exit reads both states' signs after reducing state 1 by its inverse circuit and canonicalising state 2; fidelity = "
+            "|inner_product|^2. These are what 'distinguish states that differ only in the sign of a generator' needs and the "
+            "suite's all-zero sign fixtures cannot show. Does not decide that inner_product equals <a|b>, symmetry, or "
+            "uniqueness of the canonical form.",
+    "ref": "DESIGN.md §5.5",
+    "note": "Trusted: row_sum / g_function arithmetic; canonical_form's algorithm.",
+    "technique": "static analysis: field-read extraction from equality predicates, sign-vector dataflow (phase-derived names), "
+                 "row-operation ownership lint",
+}
+
+CLAIMS["C11"] = {
+    "text": "Narrow claim: decides structural necessary conditions — run_circuit's forward function per tag denotes the tag's "
+            "gate and its reverse function is the Clifford inverse (finite model), the list is reversed under reverse; derived "
+            "gates compose to their named elements; in inverse_circuit every emitted tag is mirrored by the transform call "
+            "run_circuit maps it to, on the same indices, and vice versa; emitted tags are all handled; row operations carry "
+            "signs; clifford_from_stabilizer replays the inverse circuit backwards from |0..0>. Does not decide that the "
+            "block-wise synthesis reaches |0..0> with positive signs for every tableau.",
+    "ref": "DESIGN.md §5.11",
+    "note": "Trusted: the three primitive gate updates; canonical_form.",
+    "technique": "static analysis: dispatch-table extraction + finite-group inverse check, emit/apply mirror pairing per block, "
+                 "vocabulary inclusion, row-operation ownership lint",
+}
